@@ -13,6 +13,7 @@ import (
 	"os"
 	"strings"
 	"sync"
+	"time"
 
 	f_note "github.com/transparency-dev/formats/note"
 	"github.com/transparency-dev/witness/internal/config"
@@ -26,7 +27,21 @@ import (
 var witnessAnswers = []string{"valid", "missing", "wrong_log_key", "no_witness_sig", "invalid_witness_sig", "corrupted", "other_logs_checkpoint", "valid_two_keys", "wrong_origin", "witness_error"}
 var distAnswers = []string{"200", "400", "404", "500", "reset", "302_to_200", "307_to_404", "307_to_200"}
 
+// wait sleeps d unless ctx ends first.
+func wait(ctx context.Context, d time.Duration) error {
+	if d <= 0 {
+		return ctx.Err()
+	}
+	select {
+	case <-time.After(d):
+		return nil
+	case <-ctx.Done():
+		return ctx.Err()
+	}
+}
+
 type stubWitness struct {
+	delay   map[string]time.Duration
 	mu      sync.Mutex
 	answers map[string][]byte // nil = not exist
 	errs    map[string]error
@@ -35,8 +50,14 @@ type stubWitness struct {
 
 func (w *stubWitness) GetLatestCheckpoint(ctx context.Context, id string) ([]byte, error) {
 	w.mu.Lock()
-	defer w.mu.Unlock()
 	w.asked = append(w.asked, id)
+	d := w.delay[id]
+	w.mu.Unlock()
+	if err := wait(ctx, d); err != nil {
+		return nil, err
+	}
+	w.mu.Lock()
+	defer w.mu.Unlock()
 	if e := w.errs[id]; e != nil {
 		return nil, e
 	}
@@ -53,6 +74,7 @@ type seenReq struct {
 }
 
 type stubDist struct {
+	delay  time.Duration
 	mu     sync.Mutex
 	answer map[string]string // by log ID (from the path)
 	seen   []seenReq
@@ -63,6 +85,9 @@ func (d *stubDist) RoundTrip(q *http.Request) (*http.Response, error) {
 	if q.Body != nil {
 		body, _ = io.ReadAll(q.Body)
 		q.Body.Close()
+	}
+	if err := wait(q.Context(), d.delay); err != nil {
+		return nil, err // the request never reaches the service
 	}
 	d.mu.Lock()
 	defer d.mu.Unlock()
@@ -163,8 +188,12 @@ func cycle(run *ev.Run, unit int64, r *rand.Rand, ws, ds []string) {
 		return
 	}
 	witV := signer.Verifier()
-	sw := &stubWitness{answers: map[string][]byte{}, errs: map[string]error{}}
+	sw := &stubWitness{answers: map[string][]byte{}, errs: map[string]error{}, delay: map[string]time.Duration{}}
 	sd := &stubDist{answer: map[string]string{}}
+	latency := len(ws) > 1 && r.IntN(2) == 0 // realistic latencies: a failure of one log must not abort the others
+	if latency {
+		sd.delay = time.Duration(r.IntN(4)) * time.Millisecond
+	}
 	var clogs []config.Log
 	cosign := func(l *gen.Log, k *refnote.SignKey, origin string, wsig string) []byte {
 		size := 1 + r.Uint64N(9)
@@ -193,6 +222,9 @@ func cycle(run *ev.Run, unit int64, r *rand.Rand, ws, ds []string) {
 		}
 		clogs = append(clogs, cl)
 		sd.answer[cl.ID] = ds[i]
+		if latency && (ws[i] == "valid" || ws[i] == "valid_two_keys") {
+			sw.delay[cl.ID] = time.Duration(r.IntN(6)) * time.Millisecond
+		}
 		switch ws[i] {
 		case "valid":
 			sw.answers[cl.ID] = cosign(l, l.Key, l.Origin, "v1")
